@@ -34,6 +34,26 @@ def is_uom(callee, method):
     return "uom::si::" in callee and callee.endswith("::" + method)
 
 
+def abstract_phi(s, name):
+    """`phi(a|b|..)` (a loop-carried / branch-defined float) by a role name (balanced parentheses)"""
+    out, i = "", 0
+    while True:
+        j = s.find("phi(", i)
+        if j < 0:
+            return out + s[i:]
+        k, depth = j + 4, 0
+        while k < len(s):
+            if s[k] == "(":
+                depth += 1
+            elif s[k] == ")":
+                if depth == 0:
+                    break
+                depth -= 1
+            k += 1
+        out += s[i:j] + name
+        i = k + 1
+
+
 def run(prog, tier, res):
     res.explanation = ("all-returns analysis of the closest-point routine (every returned value is an atan2 result or "
                        "clamp(_, -PI, PI)), and a census of who writes the reported t values: Track.t_inner/t_outer and "
@@ -58,15 +78,41 @@ def run(prog, tier, res):
             lo, hi = fconst(t[2][1]), fconst(t[2][2])
             ok = lo is not None and hi is not None and abs(lo + math.pi) < 1e-15 and abs(hi - math.pi) < 1e-15
             why = "is clamp(_, %s, %s)" % (lo, hi)
+            # "strictly inside (-pi, pi) means it is the stationary point found": what is clamped is the solution of the
+            # stationarity equation itself (pi - E + 2 pi n - phi0 + delta, E = the Newton iterate), not a reduced or
+            # otherwise post-processed value that could land inside the interval without being a stationary point
+            if ok:
+                sy_ = Sym(prog, an, slice_param=99)
+                opn = abstract_phi(sy_.name(t[2][0]), "E")
+                from .. import accept as _accept
+                want = _accept.load_spec("c16.json")["clamp_operand"]
+                if opn != want:
+                    ok = False
+                    why = "clamp-operand: clamps `%s`, not the stationary-point expression `%s`" % (opn[:200], want[:120])
         elif t[0] == "call" and is_uom(t[1], "get") and len(t[2]) == 1:
             inner = strip(t[2][0])
             ok = inner[0] == "call" and inner[1] == ABV
             why = "is .get() of `%s`" % (short(inner[1]) if inner[0] == "call" else inner[0])
+        if ok:
+            # which return is taken: the circle fallback exactly when |h| is below machine epsilon (a pitch of either sign
+            # with |h| >= eps must take the stationary-point branch, where t depends on z)
+            from .. import accept as _accept2
+            from ..sym import atom_str as _atom_str
+            sy2 = Sym(prog, an, slice_param=99)
+            ats_ = []
+            for (d_, rel_, vals_) in an.atoms_at(bb):
+                ats_ += sy2.atoms(d_, rel_, vals_)
+            gs = sorted(_atom_str(a_) for a_ in (_accept2.simplify(ats_, sy2.sym_box) or []))
+            kind_ = "clamp" if short(t[1]) == "<impl f64>::clamp" else "circle"
+            want_g = _accept2.load_spec("c16.json")["return_guards"][kind_]
+            if gs != want_g:
+                ok = False
+                why = "guard: the %s return is taken under %s, expected %s" % (kind_, gs, want_g)
         res.oblige(ok, "all-returns")
         if ok:
             res.hit(R1)
         else:
-            res.violate(R1, CLOSEST, "return:%s" % why[:80], "a value returned by the closest-point routine %s — it is not confined to [-pi, pi]" % why, b.where(bb))
+            res.violate(R1, CLOSEST, "return:%s" % (why.split(":")[0] if why.startswith(("clamp-operand", "guard")) else why[:80]), "a value returned by the closest-point routine %s — it is not confined to [-pi, pi]" % why, b.where(bb))
     ab = prog.body(ABV)
     aan = analysis(prog, ab)
     res.functions.add(ABV)
@@ -139,6 +185,23 @@ def run(prog, tier, res):
                 return False
             ok_h = a0[0] == "field" and a0[2] == hi and elem is not None and is_track_elem(elem)
             ok_p = False
+            # a closure captures the components of the position separately (`position.x`, `position.y`, `position.z` are
+            # three upvars): read the point in the vocabulary of the body that creates the closure
+            vbody, van = body, can
+            parent = prog.bodies.get(p.rsplit("::{closure", 1)[0])
+            def env_field(x):
+                x = strip(x)
+                return x[0] == "field" and strip(x[1]) == ("param", 1)
+            from_env = a1[0] == "aggr" and len(a1[2]) == 3 and (env_field(a1[2][2]) or (strip(a1[2][0])[0] == "call" and strip(a1[2][0])[2] and env_field(strip(a1[2][0])[2][0])))
+            if parent is not None and from_env:
+                pan = analysis(prog, parent)
+                for bi, si, st in parent.stmts():
+                    if st["k"] == "assign" and st["rv"]["k"] == "aggr" and st["rv"].get("ak") == "closure" and st["rv"].get("p") == p:
+                        pan.terms._pos = (bi, si)
+                        caps = strip(pan.terms.rvalue(st["rv"]))[2]
+                        from ..guards import subst_upvars
+                        a1 = strip(subst_upvars(a1, caps))
+                        vbody, van = parent, pan
             if a1[0] == "aggr" and a1[1].endswith("SpacePoint::SpacePoint") and len(a1[2]) == 3:
                 r_, phi, z = [strip(x) for x in a1[2]]
                 if r_[0] == "call" and is_uom(r_[1], "hypot") and phi[0] == "call" and is_uom(phi[1], "atan2"):
@@ -150,10 +213,10 @@ def run(prog, tier, res):
                         # the position's components are still visible as the operands of the Coordinate stored in
                         # VertexInfo.position by this body
                         pi_ = field_index(prog, R + "VertexInfo", "position")
-                        for bi, si, st in body.stmts():
+                        for bi, si, st in vbody.stmts():
                             if st["k"] == "assign" and st["rv"]["k"] == "aggr" and st["rv"].get("p", "").endswith("::VertexInfo"):
-                                can.terms._pos = (bi, si)
-                                pos_t = strip(can.terms.operand(st["rv"]["ops"][pi_]))
+                                van.terms._pos = (bi, si)
+                                pos_t = strip(van.terms.operand(st["rv"]["ops"][pi_]))
                                 if pos_t[0] == "aggr" and pos_t[1].endswith("Coordinate::Coordinate") and len(pos_t[2]) == 3:
                                     X, Y, Z = [strip(c_) for c_ in pos_t[2]]
                                     base_ok = same(x0, X) and same(y0, Y) and same(z, Z)
